@@ -190,9 +190,10 @@ Fixpoint cat_leaves (t : tok) : option (list leaf) :=
   | _ => None
   end.
 
-(* TreeExhaustiveness::is_unbounded_repetition: no upper bound; only tokens that are unbounded in text (`?`, `*`, `$`: no
+(* TreeExhaustiveness::is_unbounded_repetition: no bounds (lower 0, no upper); only tokens that are unbounded in text (`?`, `*`, `$`: no
    boundary, no literal, no class) and, except for at most one of them (`?`), in breadth *)
-Definition free_rep (b : tok) (hi : option N) : bool :=
+Definition free_rep (b : tok) (lo : N) (hi : option N) : bool :=
+  (lo =? 0) &&
   match hi, cat_leaves b with
   | None, Some ls =>
       forallb (fun l => match l with LOne | LZom _ => true | _ => false end) ls &&
@@ -206,7 +207,7 @@ Fixpoint all_unbounded (t : tok) : bool :=
   | TLeaf _ _ => exh_takes t
   | TAlt _ bs => forallb all_unbounded bs
   | TCat _ ts => forallb all_unbounded ts
-  | TRep _ b _ hi => free_rep b hi || all_unbounded b
+  | TRep _ b lo hi => free_rep b lo hi || all_unbounded b
   end.
 
 (* TreeExhaustiveness::is_bounded_branch *)
